@@ -1,6 +1,251 @@
 // Contract harnesses for ntp-proto/src/ipfilter.rs (child module: sees private items).
+// Property C31: an address is listed exactly when it lies in at least one configured subnet
+// (IPv4, IPv6, IPv4-mapped IPv6, every mask length); subnet strings are accepted exactly when the
+// address parses and the mask fits the canonicalised family.
 #![allow(unused_imports)]
 use super::*;
+
+// ---------------------------------------------------------------- naive specification
+
+// prefix (p, l) contains x  <=>  the top l bits agree (written without the function under test)
+fn spec_contains(p: u128, l: u8, x: u128) -> bool {
+    if l == 0 {
+        true
+    } else {
+        (p >> (128 - l as u32)) == (x >> (128 - l as u32))
+    }
+}
+
+// ---------------------------------------------------------------- leaves (complete)
+
+// top_nibble: the 4 most significant bits, for every u128.
+#[kani::proof]
+fn c31_p_top_nibble() {
+    let v: u128 = kani::any();
+    let n = top_nibble(v);
+    assert!(n < 16);
+    assert!((n as u128) == v >> 124);
+    assert!(top_nibble(v << 4) as u128 == (v >> 120) & 0xF);
+    kani::cover!(n == 15, "reachable");
+}
+
+// apply_mask: keeps exactly the top `len` bits and clears the rest, for every u128 and len <= 128;
+// never panics there.  (The doc comment in the source says "top 128 - len bits"; the statement and
+// all callers need "top len bits", which is what is checked.)
+#[kani::proof]
+fn c31_p_apply_mask() {
+    let v: u128 = kani::any();
+    let len: u8 = kani::any();
+    kani::assume(len <= 128);
+    let m = apply_mask(v, len);
+    // bit i (from the top, 0-based) is kept iff i < len
+    let i: u32 = kani::any();
+    kani::assume(i < 128);
+    let bit = |x: u128| (x >> (127 - i)) & 1;
+    if i < len as u32 {
+        assert!(bit(m) == bit(v));
+    } else {
+        assert!(bit(m) == 0);
+    }
+    // idempotent, and masked equality is the containment spec
+    assert!(apply_mask(m, len) == m);
+    let x: u128 = kani::any();
+    assert!((apply_mask(x, len) == m) == spec_contains(v, len, x));
+    kani::cover!(len == 0 && v != 0, "len 0 reachable");
+    kani::cover!(len == 128, "len 128 reachable");
+}
+
+// ---------------------------------------------------------------- IpFilter::is_in dispatch (complete)
+
+fn leaf(inset: u16) -> BitTree {
+    BitTree { nodes: vec![TreeNode { child_offset: 1, inset, outset: !inset }] }
+}
+
+// is_in: canonicalises the address, then asks the v4 tree with the address in the top 32 bits, or
+// the v6 tree with the full 128 bits.  Checked for every address against one-node trees whose
+// answer is a function of the top nibble only (so the harness observes WHICH tree was asked WHAT).
+#[kani::proof]
+#[kani::unwind(18)]
+fn c31_p_is_in_dispatch() {
+    let in4: u16 = kani::any();
+    let in6: u16 = kani::any();
+    let f = IpFilter { ipv4_filter: leaf(in4), ipv6_filter: leaf(in6) };
+    let bytes: [u8; 16] = kani::any();
+    if kani::any() {
+        let a = Ipv4Addr::new(bytes[0], bytes[1], bytes[2], bytes[3]);
+        let want = in4 & (1 << (bytes[0] >> 4)) != 0;
+        assert!(f.is_in(IpAddr::V4(a)) == want);
+        // the same host written as an IPv4-mapped IPv6 address is treated identically
+        assert!(f.is_in(IpAddr::V6(a.to_ipv6_mapped())) == want);
+        assert!(f.is_in4(a) == f.ipv4_filter.lookup((u32::from_be_bytes(a.octets()) as u128) << 96));
+    } else {
+        let a = Ipv6Addr::from(bytes);
+        let mapped = bytes[..10] == [0u8; 10] && bytes[10] == 0xff && bytes[11] == 0xff;
+        let got = f.is_in(IpAddr::V6(a));
+        if mapped {
+            assert!(got == (in4 & (1 << (bytes[12] >> 4)) != 0));
+        } else {
+            assert!(got == (in6 & (1 << (bytes[0] >> 4)) != 0));
+            assert!(got == f.ipv6_filter.lookup(u128::from_be_bytes(bytes)));
+        }
+        kani::cover!(mapped, "mapped address reachable");
+        kani::cover!(!mapped && got, "plain v6 reachable");
+    }
+}
+
+// ---------------------------------------------------------------- IpFilter::new list building (bounded: 2 subnets)
+
+// IpFilter::new puts each subnet into the tree of its family with the v4 address in the top 32
+// bits; with <= 2 subnets (symbolic family, address, mask <= 8 so the trees stay 2 levels deep)
+// is_in(addr) == exists subnet of the (canonical) family of addr containing it.
+#[kani::proof]
+#[kani::unwind(18)]
+fn c31_tb_new_and_is_in_two_subnets() {
+    let mk = |v4: bool, hi: u8, mask: u8| -> IpSubnet {
+        if v4 {
+            IpSubnet { addr: IpAddr::V4(Ipv4Addr::new(hi, 0, 0, 0)), mask }
+        } else {
+            IpSubnet { addr: IpAddr::V6(Ipv6Addr::new((hi as u16) << 8, 0, 0, 0, 0, 0, 0, 0)), mask }
+        }
+    };
+    let (f1, h1, m1): (bool, u8, u8) = (kani::any(), kani::any(), kani::any());
+    let (f2, h2, m2): (bool, u8, u8) = (kani::any(), kani::any(), kani::any());
+    kani::assume(m1 <= 8 && m2 <= 8);
+    let subnets = [mk(f1, h1, m1), mk(f2, h2, m2)];
+    let filter = IpFilter::new(&subnets);
+    let (qf, qh): (bool, u8) = (kani::any(), kani::any());
+    let q = mk(qf, qh, 0).addr;
+    let want = (f1 == qf && spec_contains((h1 as u128) << 120, m1, (qh as u128) << 120))
+        || (f2 == qf && spec_contains((h2 as u128) << 120, m2, (qh as u128) << 120));
+    assert!(filter.is_in(q) == want);
+    kani::cover!(want && f1 != f2, "hit with mixed families");
+    kani::cover!(!want, "miss reachable");
+}
+
+// ---------------------------------------------------------------- BitTree against the naive spec (bounded)
+
+fn tree_vs_spec<const N: usize>(maxlen: u8, topbits: u32) {
+    let mut data: [(u128, u8); N] = [(0, 0); N];
+    let mut orig: [(u128, u8); N] = [(0, 0); N];
+    for k in 0..N {
+        let p: u128 = kani::any();
+        let l: u8 = kani::any();
+        kani::assume(l <= maxlen);
+        // only the top `topbits` bits are symbolic (lower bits are masked away by create anyway)
+        kani::assume(p & (u128::MAX >> topbits) == 0);
+        data[k] = (p, l);
+        orig[k] = (p, l);
+    }
+    // exactly N entries; duplicates and nested prefixes are allowed, so shorter lists are covered as
+    // lists with repeated entries (the empty list is c31_p_tree_empty_and_all)
+    let n = N;
+    let tree = BitTree::create(&mut data[..]);
+    let x: u128 = kani::any();
+    let got = tree.lookup(x);
+    let mut want = false;
+    for k in 0..N {
+        if k < n && spec_contains(orig[k].0, orig[k].1, x) {
+            want = true;
+        }
+    }
+    assert!(got == want, "lookup == exists subnet containing the address");
+    kani::cover!(got && n == N, "hit with all subnets present");
+    kani::cover!(!got && n == N, "miss with all subnets present");
+}
+
+// thorough (timed out at 600 s on the loaded build machine; NOT discharged yet): <= 2 prefixes of length <= 8 (2 trie levels), every address
+#[kani::proof]
+#[kani::unwind(18)]
+fn c31_tb_tree_2x8() {
+    tree_vs_spec::<2>(8, 8);
+}
+
+// thorough: <= 3 prefixes of length <= 12 (3 trie levels)
+#[kani::proof]
+#[kani::unwind(18)]
+fn c31_tb_tree_3x12() {
+    tree_vs_spec::<3>(12, 12);
+}
+
+// lookup is memory safe and terminates on every tree produced by create (same bound as above is
+// implied there); here: the empty list gives the empty set and /0 gives everything, any address.
+#[kani::proof]
+#[kani::unwind(18)]
+fn c31_tp_tree_empty_and_all() {
+    let x: u128 = kani::any();
+    let mut none: [(u128, u8); 0] = [];
+    assert!(!BitTree::create(&mut none).lookup(x));
+    let p: u128 = kani::any();
+    let mut all = [(p, 0u8)];
+    assert!(BitTree::create(&mut all).lookup(x));
+    kani::cover!(true, "reachable");
+}
+
+// ---------------------------------------------------------------- IpSubnet::from_str (bounded: fixed address texts)
+
+// text "<addr>/<m>" for every decimal m in 0..=999 (so also values that do not fit u8)
+fn subnet_text(addr: &str, m: u16) -> String {
+    let mut s = String::from(addr);
+    s.push('/');
+    if m >= 100 {
+        s.push((b'0' + (m / 100) as u8) as char);
+    }
+    if m >= 10 {
+        s.push((b'0' + ((m / 10) % 10) as u8) as char);
+    }
+    s.push((b'0' + (m % 10) as u8) as char);
+    s
+}
+
+// post<=statement: accepted exactly when the mask fits the canonicalised family; the stored address
+// is the canonical one and the stored mask counts bits of that family.
+// Bounded: three fixed address texts (v4, v6, v4-mapped v6) x every mask text 0..=999.
+macro_rules! from_str_harness {
+    ($name:ident, $text:expr, $lo:expr, $hi:expr, $sub:expr, $want:expr) => {
+        #[kani::proof]
+        #[kani::unwind(48)]
+        fn $name() {
+            let m: u16 = kani::any();
+            kani::assume(m <= 999);
+            let r: Result<IpSubnet, _> = subnet_text($text, m).parse();
+            match &r {
+                Ok(sn) => {
+                    assert!(m >= $lo && m <= $hi);
+                    assert!(sn.mask as u16 == m - $sub);
+                    assert!(sn.addr == $want);
+                }
+                Err(_) => { assert!(m < $lo || m > $hi) }
+            }
+            kani::cover!(r.is_ok(), "accepted");
+            kani::cover!(r.is_err(), "rejected");
+        }
+    };
+}
+from_str_harness!(c31_tb_from_str_v4, "10.1.2.3", 0, 32, 0, IpAddr::V4(Ipv4Addr::new(10, 1, 2, 3)));
+from_str_harness!(c31_tb_from_str_v6, "2001:db8::1", 0, 128, 0, IpAddr::V6(Ipv6Addr::new(0x2001, 0xdb8, 0, 0, 0, 0, 0, 1)));
+from_str_harness!(c31_tb_from_str_mapped, "::ffff:192.168.0.1", 96, 128, 96, IpAddr::V4(Ipv4Addr::new(192, 168, 0, 1)));
+
+// ---------------------------------------------------------------- canaries
+
+// FALSE: a /4 prefix also matches its neighbour nibble.
+#[kani::proof]
+#[kani::unwind(18)]
+fn c31_canary_tree_overmatches() {
+    let mut d = [(0x3u128 << 124, 4u8)];
+    let t = BitTree::create(&mut d);
+    let x: u128 = kani::any();
+    kani::assume(top_nibble(x) == 2);
+    assert!(t.lookup(x));
+}
+
+// FALSE: apply_mask keeps the low bits.
+#[kani::proof]
+fn c31_canary_apply_mask_identity() {
+    let v: u128 = kani::any();
+    let len: u8 = kani::any();
+    kani::assume(len <= 128);
+    assert!(apply_mask(v, len) == v);
+}
 
 #[cfg(all(kani, test))]
 mod replay {
